@@ -304,7 +304,8 @@ func (l *loopSys) apply(f []string) (out string) {
 		respond, _ := xds.ShouldRespond(l.sut.proxy, "verif", &discovery.DiscoveryRequest{
 			TypeUrl: url, ResourceNames: m.names, ResponseNonce: m.nonce, ErrorDetail: errDetail(m.err),
 		})
-		if respond {
+		// f[2] == "0": the server decides to answer but nothing goes out (the generator has nothing to send)
+		if respond && !(len(f) > 2 && f[2] == "0") {
 			l.sut.ss.fail = false
 			_ = xds.Send(l.sut.con, &discovery.DiscoveryResponse{TypeUrl: url, Nonce: n})
 			l.s2c = append(l.s2c, n)
@@ -356,7 +357,8 @@ func genLoop(seed uint64, n int, outp string) {
 					out.Line("crecv", "-")
 				}
 			case 5, 6, 7:
-				out.Line("srecv", wire.Enc(nonce()))
+				// one answer in six has nothing to send (or its send fails)
+				out.Line("srecv", wire.Enc(nonce()), wire.B(!r.Chance(1, 6)))
 			case 8:
 				out.Line("spush", wire.Enc(nonce()))
 			default:
@@ -366,7 +368,7 @@ func genLoop(seed uint64, n int, outp string) {
 		// drain to quiescence so that the quiescent clause is exercised
 		if r.Chance(3, 4) {
 			for k := 0; k < 12; k++ {
-				out.Line("srecv", wire.Enc(nonce()))
+				out.Line("srecv", wire.Enc(nonce()), wire.B(!r.Chance(1, 10)))
 				out.Line("crecv", "-")
 			}
 		}
@@ -725,7 +727,6 @@ func oracle(stream, in, outp string) {
 			url := typeURL[t]
 			sub, unsubL, initL := wire.DecList(f[2]), wire.DecList(f[3]), wire.DecList(f[4])
 			isErr := f[6] != "-"
-			carries := len(sub) > 0 || len(unsubL) > 0
 			existed := o.get(t).exists
 			e := o.expectDelta(t, sub, unsubL, initL, wire.Dec(f[5]), errMsgOf(f[6]))
 			res := s.apply(f)
@@ -742,7 +743,7 @@ func oracle(stream, in, outp string) {
 			if existed && len(initL) > 0 {
 				nonconf[url] = true
 			}
-			if !existed && !(isErr && !carries) {
+			if !existed {
 				asked[url] = sets.New[string]()
 				asked[url].InsertAll(sub...)
 				asked[url].InsertAll(initL...)
